@@ -1,4 +1,5 @@
 import TcheranVerif.Proofs.MagicCert
+import TcheranVerif.Proofs.Sweep.S17  -- only to bound how many parts are checked at once (≈8 GB each)
 /-! C07 sweep, part 21: rook squares [35, 36, 37, 38] — decided by the kernel alone -/
 namespace Tcheran.Sweep
 
